@@ -19,9 +19,11 @@ const (
 	opCloseCirc
 	opConnectReal
 	opBatch
+	opXDirect     // X (connected through R2) additionally dials the relay directly
+	opXDropDirect // X closes its direct connection(s); the relayed one stays
 )
 
-var opNames = [...]string{"RESERVE", "CONNECT", "ADVANCE", "DISCONNECT", "MOVE", "CLOSE-CIRCUIT", "CONNECT-REAL", "BATCH"}
+var opNames = [...]string{"RESERVE", "CONNECT", "ADVANCE", "DISCONNECT", "MOVE", "CLOSE-CIRCUIT", "CONNECT-REAL", "BATCH", "X-ADD-DIRECT", "X-DROP-DIRECT"}
 
 const (
 	faultNone = iota
@@ -78,6 +80,7 @@ type cfgT struct {
 	realStop []bool
 	withX    bool // one more client (index nCl) that reaches the relay through relay R2
 	r2Lim    bool
+	mixed    bool // X may also hold a direct connection (added / dropped by operations)
 	nPro     int
 	ops      []opT
 }
@@ -117,7 +120,7 @@ func (c *cfgT) String() string {
 		s += fmt.Sprintf("[c%d %s alt %s %s]", i, c.home[i], c.alt[i], k)
 	}
 	if c.withX {
-		s += fmt.Sprintf("[X via R2 limited=%v]", c.r2Lim)
+		s += fmt.Sprintf("[X via R2 limited=%v mixed=%v]", c.r2Lim, c.mixed)
 	}
 	return s
 }
@@ -161,6 +164,7 @@ func drawCfg(g simrt.Gen) *cfgT {
 	}
 	c.withX = g.Chance(1, 4)
 	c.r2Lim = g.Bool()
+	c.mixed = c.withX && !g.Chance(1, 3)
 	// prologue: the first clients reserve, so that later CONNECTs mostly aim at reservation holders
 	c.nPro = 1 + g.Int(3)
 	for i := 0; i < c.nPro; i++ {
@@ -179,7 +183,11 @@ func drawOp(g simrt.Gen, c *cfgT, batchOK bool) opT {
 	if batchOK {
 		wBatch = 8
 	}
-	op.kind = g.Weighted(7, 7, 3, 2, 3, 2, 2, wBatch)
+	wX := 0
+	if c.mixed {
+		wX = 4
+	}
+	op.kind = g.Weighted(7, 7, 3, 2, 3, 2, 2, wBatch, wX, wX)
 	op.a, op.b = drawPair(g, c)
 	switch op.kind {
 	case opReserve:
@@ -201,6 +209,11 @@ func drawOp(g simrt.Gen, c *cfgT, batchOK bool) opT {
 		op.raw = g.Bool()
 	case opCloseCirc:
 		op.closeHow = g.Int(3)
+	case opXDirect, opXDropDirect:
+		op.a = c.nCl
+		op.b = g.Int(c.nCl)
+		op.refresh = !g.Chance(1, 4) // followed by RESERVE(X) / by a CONNECT to X
+		op.raw = g.Bool()
 	case opBatch:
 		k := 2 + g.Int(3)
 		for i := 0; i < k; i++ {
@@ -272,6 +285,10 @@ func (c *cfgT) opString(op opT) string {
 		s += fmt.Sprintf("(%s keep=%v refresh=%v)", c.name(op.a), op.keep, op.refresh)
 	case opCloseCirc:
 		s += fmt.Sprintf("(#%d how=%d)", op.a, op.closeHow)
+	case opXDirect:
+		s += fmt.Sprintf("(then reserve=%v)", op.refresh)
+	case opXDropDirect:
+		s += fmt.Sprintf("(then connect from %s=%v)", c.name(op.b), op.refresh)
 	case opBatch:
 		s += "{"
 		for i, x := range op.sub {
